@@ -53,7 +53,7 @@ impl Fragments {
             fragment_size + 1
         };
 
-        let number_of_fragments = (data.len() as f32 / fragment_size as f32).ceil() as u32;
+        let number_of_fragments = data.len().div_ceil(fragment_size as usize) as u32;
 
         // Calculate the encapsulated size. If necessary pad the vector with zeroes so all the
         // chunks have the same fragment_size
